@@ -65,8 +65,11 @@ SysP(e, p) ==
                [] o.op \in {"lock", "lockw"} -> e.op = o.op /\ e.obs = (IF LockedByOther(o.f, p) THEN "fail" ELSE "ok")
                [] OTHER -> FALSE
        /\ CAcqStep(p)
-    \/ /\ ps[p].pc = "cfail_fstat" /\ e.op = "fstat" /\ CFailStep(p)
-    \/ /\ ps[p].pc = "cfail" /\ e.op = "close" /\ CFailStep(p)
+    \/ /\ ps[p].pc = "refuse"
+       /\ LET o == CleanerRefuse[ps[p].idx][ps[p].k] IN
+          /\ OpIs(e, o)
+          /\ e.obs = (IF o.op = "fstat" THEN perm[o.f] ELSE OpObs(o))
+       /\ CRefuseStep(p)
     \/ /\ ps[p].pc \in {"owner", "drop"}
        /\ OpIs(e, CleanerDrop[IF ps[p].pc = "owner" THEN 1 ELSE ps[p].idx])
        /\ e.obs = OpObs(CleanerDrop[IF ps[p].pc = "owner" THEN 1 ELSE ps[p].idx])
